@@ -108,6 +108,15 @@ def run(check: Check) -> None:
             v, d = pc.compare([pc.SIGMA[i] for i in syms], available=pc.AVAILABLE)
             if v not in ("agree", "dontcare"):
                 bad.append((syms, v, d))
+    for i in range(len(ch_c01.LHS_T)):
+        for j in range(len(ch_c01.RHS_T)):
+            for ii in (True, False):
+                nn += 1
+                syms = ch_c01.LHS_T[i].split(" ") + ["~"] + ch_c01.RHS_T[j].split(" ")
+                v, d = pc.compare(syms, include_intercept=ii, available=pc.AVAILABLE)
+                if v not in ("agree", "dontcare"):
+                    check.violation(f"{v}::{' '.join(syms)}", f"{v}: formula {' '.join(syms)!r} (include_intercept={ii}): {d}",
+                                    {"kind": "ch_native", "module": "ch_c01", "function": "sides", "call": {"args": [i, j, ii], "kwargs": {}}})
     check.obligation("streams/native cross-validation (K<=3)", "ground", nn - len(bad))
     for syms, v, d in bad[:20]:
         key = f"{v}::{' '.join(pc.SIGMA[i] for i in syms)}"
@@ -116,7 +125,7 @@ def run(check: Check) -> None:
     fns = {
         "shunting": [None], "shunting_paren": [None],
         "signrun": [{"SHARD": c, "N": (5 if thorough else 3)} for c in range(8)],
-        "identity": list(range(23)), "forms": [None],
+        "identity": list(range(23)), "forms": [None], "sides": list(range(10)),
         "stream1": list(range(16)), "stream2": list(range(16)),
         "stream3": list(range(19)),
     }
